@@ -11,7 +11,13 @@ C15_restrict_refines C15_partition_from_refinement C15_infos_from_refinement C15
 C15_efficiency_order_by_cells C15_finding_split_drops_forced
 C15_kinds_are_classes C15_internal_register_classes C15_unranked_keeps_order
 C15_restrict_cuts_by_root C15_restrict_covers C15_restrict_independent_of_allowed C15_allow_keeps_kinds
-C15_allowed_within_root C15_allow_history_reduces C15_kinds_partition_disallowed""".split()]
+C15_allowed_within_root C15_allow_history_reduces C15_kinds_partition_disallowed
+C15_rank_shape C15_rank_spec C15_rank_consistent_with_forced C15_forced_strategy_fails C15_strategy_table
+C15_strategy_selects C15_rank_by_strategy C15_info_summary C15_env_values C15_env_history_invariant
+C15_env_history_ranked C15_rank_consistent_with_forced_history C15_rank_consistent_with_forced_after_rank
+C15_env_history_refinement C15_env_allow_history_reduces C15_env_allow_history_ranked
+C15_coretype_frequency_lexicographic C15_driver_crosscheck C15_direct_rank
+C15_rank_forced_int_range C15_info_strategy_fails C15_nonnumeric_frequency_fails""".split()]
 CHECK_MODULES = ["Hw.Props.C15"]
 TRUSTED = ["hwloc_bitmap_compare_inclusion / and / andnot / iszero enter the model through their set-level meaning on finite "
            "sets (Nat masks); the bitmap layer itself is C03",
@@ -34,7 +40,11 @@ MODELLED = ("modelled: all of hwloc/cpukinds.c except allocation failure paths (
             "depend on the allowed cpuset, restrict cuts them by the new root cpuset); hwloc_internal_cpukinds_register is also "
             "driven directly (flags 0 / OVERWRITE / invalid) in `+ireg` side streams, outside the candidate-finding class "
             "'flags-0 split of a kind with a known, different forced efficiency' (corpus/cpukinds.findings/, evidence key "
-            "candidate_findings, never a verdict); exercised but not modelled: the topology "
+            "candidate_findings, never a verdict); A7: HWLOC_CPUKINDS_RANKING is re-read by every rank, so histories carry a strategy per "
+            "call (Hw.Attr.CpuKindsStrategies: runE / runET / traceTE; the harness op `env` does the setenv inside the process) and "
+            "`rank` is characterised on every array for every strategy (Sel table, rank_by_strategy, rank_consistent_with_forced); "
+            "the driver re-checks `Ranked` w.r.t. the strategy of the last ranking call and the last-pair info summaries on every "
+            "observation (specOK); exercised but not modelled: the topology "
             "tree side of restrict/dup/XML, libxml vs nolibxml parsing")
 
 
